@@ -14,7 +14,7 @@
    rneqb                row inequality as _get_spans_for_multi_fields computes it (exact, rneqb_exact) *)
 From Coq Require Import ZArith List Bool Sorted.
 From EV Require Import Res Arr StableSort Spans SpansSpec FilterIndex FilterIndexSpec Group GroupSpec
-  GroupCore GroupModel GroupFrames GroupCompose.
+  GroupCore GroupModel GroupFrames GroupCompose GroupHist GroupHistSpec GroupHistP GroupEmbed.
 Import ListNotations.
 Open Scope Z_scope.
 
@@ -224,3 +224,61 @@ Print Assumptions session_distinct_correct.
 Example session_distinct_example :
   session_distinct_ref [[[2];[1];[2]]; [[97];[];[97]]] = Some [[[1];[2]]; [[];[97]]].
 Proof. vm_compute. reflexivity. Qed.
+
+(* ---- 6. histories on ONE dataframe object (Model/GroupHist.v, Spec/GroupHistSpec.v) ------------------------ *)
+(* full: in any sequence of group-by / drop_duplicates calls interleaved with in-place writes into a column
+   (data[:] = new, clear()+write()), field-level apply_index and dataframe-level apply_filter / apply_index /
+   sort_values, every group-by yields the group-wise reference of the frame AS IT IS AT THE TIME OF THE CALL
+   (spec_hist = the per-call specification folded over the current frame).  Lifts groupby_steps_correct by
+   induction; anything remembered between two calls (a memoised sort index / spans keyed by field identity, a
+   cached sortedness flag) makes the real code differ from run_hist. *)
+Theorem history_correct : forall evs cols outs r,
+  spec_hist cols evs outs = Some r -> run_hist cols evs outs = Ok r.
+Proof. exact hist_correct_pf. Qed.
+Print Assumptions history_correct.
+
+(* full: the group-by that follows a history is the call ALONE on the frame that history leaves behind *)
+Theorem history_last_call_alone : forall evs cols outs outs' cols' by_ hint ss,
+  run_hist cols evs outs = Ok (outs', cols') ->
+  run_hist cols (evs ++ [HGroup by_ hint ss]) outs
+  = (do d <- df_groupby_steps cols' by_ hint [] ss; Ok (outs' ++ [d], cols')).
+Proof. exact hist_last_call_alone_pf. Qed.
+Print Assumptions history_last_call_alone.
+
+(* group by key 0, overwrite the key column in place (same length), group by key 0 again: the second result is
+   the reference of the NEW keys ([1;1;3] -> counts [2;1]), not of the old ones ([2;1;2] -> counts [1;2]) *)
+Example history_example :
+  let f := mkField [3;5;0] true (BDat [2;1;2]) in
+  spec_hist [(0, f)] [HGroup [0] false [GCount true]; HWrite 0 (BDat [1;1;3]); HGroup [0] false [GCount true]] []
+  = Some ([[(0, mkField [3;5;0] true (BDat [1;2])); (5, mkField [3;7;0] true (BDat [1;2]))];
+           [(0, mkField [3;5;0] true (BDat [1;3])); (5, mkField [3;7;0] true (BDat [2;1]))]],
+          [(0, mkField [3;5;0] true (BDat [1;1;3]))]).
+Proof. vm_compute. reflexivity. Qed.
+
+(* ---- 7. key VALUES: the reference depends on the keys only through comparisons ------------------------------ *)
+(* full: for any map c of key cells that preserves the cell comparison (an order embedding: ranks -> integers at
+   the ends of a dtype / beyond 2^53, fixed or indexed strings differing only in trailing blanks, control
+   characters, case, high bytes), the groups of the mapped key rows are the mapped groups and every aggregate
+   column is unchanged.  Together with groupby_steps_correct: a result on concrete key values that is not the image
+   of the result on their ranks is a violation — sortedness or equality decided after stripping / casting shows. *)
+Theorem groupby_key_embedding : forall (c:list Z -> list Z) (A B:Type) (g:list A -> B) kr (vals:list A),
+  (forall a b, cell_le (c a) (c b) = cell_le a b) ->
+  agg_ref g (map (map c) kr) vals = agg_ref g kr vals /\
+  groups (map (map c) kr) = map (map c) (groups kr).
+Proof. exact (fun c A B => @agg_ref_key_embedding_pf c A B). Qed.
+Print Assumptions groupby_key_embedding.
+
+(* generic form (any key type, any comparisons related by f) *)
+Theorem agg_by_order_embedding : forall (K K' A B:Type) (kle:K -> K -> bool) (kle':K' -> K' -> bool) (f:K -> K')
+  (g:list A -> B) keys (vals:list A),
+  (forall a b, kle' (f a) (f b) = kle a b) ->
+  agg_by kle' g (map f keys) vals = agg_by kle g keys vals.
+Proof. intros. apply agg_by_embed. assumption. Qed.
+Print Assumptions agg_by_order_embedding.
+
+(* the hypothesis on a non-trivial map: ranks 1 < 2 < 3 seen as the fixed strings b'ab\0' < b'ab\t' < b'ab ' *)
+Example key_embedding_example :
+  let c := fun x:list Z => match x with [1] => [97;98;0] | [2] => [97;98;9] | _ => [97;98;32] end in
+  agg_ref (@len Z) (map (map c) [[[3]];[[1]];[[3]];[[2]]]) [10;20;30;40] = agg_ref (@len Z) [[[3]];[[1]];[[3]];[[2]]] [10;20;30;40]
+  /\ groups (map (map c) [[[3]];[[1]];[[3]]]) = [[[97;98;0]];[[97;98;32]]].
+Proof. vm_compute. split; reflexivity. Qed.
